@@ -80,7 +80,8 @@ DecReq(L, n, gs0, d) == LET gs == Below9(Clean(L, gs0))  c == Ctx(L, n)  v == Va
                             phrase == int \o " " \o sep \o " " \o fr
                             one == DigitWords[L][6] IN
   [i |-> n, kind |-> "dec", lang |-> L, gs |-> gs, v |-> v, d |-> d, pre |-> c[1], suf |-> c[2], sep |-> sep, five |-> one,
-   texts |-> <<phrase, c[1] \o phrase \o c[2], sep \o " " \o one, one \o " " \o sep, one \o " " \o sep \o " xyz", one \o " " \o sep \o ", " \o one>>,
+   texts |-> <<phrase, c[1] \o phrase \o c[2], sep \o " " \o one, one \o " " \o sep, one \o " " \o sep \o " xyz", one \o " " \o sep \o ", " \o one,
+               phrase \o " " \o sep \o " " \o one>>,
    thrs |-> <<"0">>, want |-> WantOr(<<"rew", "occs">>)]
 \* C08: two numbers below 100, one after the other, with a blank or the conjunction between them
 PairReq(L, n, a, b, conj, v) == LET sa == Cardinal(L, <<a, 0, 0, 0>>, v)  sb == Cardinal(L, <<b, 0, 0, 0>>, v)
